@@ -20,6 +20,7 @@ Directive grammar (each on its own line, inside the template):
   //@loops <n>           the body must contain exactly n loops (else lost anchor)
   //@loop <k>            following lines go between the k-th loop header and its '{'
   //@attr <line>         attribute line put before the item (e.g. #[verifier::exec_allows_no_decreases_clause])
+  //@bind NAME <regex>   `$NAME` in the contract / loop lines = group 1 of the regex in the real body (a local's name)
   //@keepattrs           do not strip attributes/doc comments (default strips them: rule X2)
   //@end
 Labels: a trailing `// [C09+C12/name]` on a clause line makes that line an obligation.
@@ -133,7 +134,8 @@ def apply_closure_rule(body, rid, want, delim, rest, counts):
     if len(parts) < 3:
         raise Undecided(f"bad //@rule: {rid} closure")
     anchor, header = parts[0], parts[1]
-    rx = re.compile("(?:" + anchor + r")\s*(move\s+)?\|\s*(\w+)\s*\|\s*", re.S)
+    # the parameter may carry a type and the closure a return type: both are dropped, the header gives them
+    rx = re.compile("(?:" + anchor + r")\s*(move\s+)?\|\s*(\w+)\s*(?::[^|]*)?\|\s*(?:->\s*[^{]+?(?=\{))?", re.S)
     mask = rscan.code_mask(body)
     out, pos, n = [], 0, 0
     for m in rx.finditer(body):
@@ -280,6 +282,10 @@ def generate(unit):
             elif s.startswith("//@attr"):
                 blk["attr"].append(s[len("//@attr") :].strip())
                 cur = None
+            elif s.startswith("//@bind"):
+                _, bname, brx = s.split(None, 2)
+                blk.setdefault("bind", []).append((bname, brx))
+                cur = None
             elif s.startswith("//@keepattrs"):
                 blk["keepattrs"] = True
             elif s.startswith("//@entry"):
@@ -308,11 +314,16 @@ def generate(unit):
             cm = rscan.find_code(src, mask, kv["closure"] + r"(?=(?:move\s+)?\|)", b, end)
             if not cm:
                 raise Undecided(f"lost anchor: no closure after /{kv['closure']}/ in {kv['item']} of {kv['file']}")
-            hm = re.compile(r"(?:move\s+)?\|[^|]*\|\s*").match(src, cm.end())
+            hm = re.compile(r"(?:move\s+)?\|\s*(\w+)\s*(?::[^|]*)?\|\s*").match(src, cm.end())
             if not hm or src[hm.end()] != "{":
-                raise Undecided(f"lost anchor: closure after /{kv['closure']}/ in {kv['item']} is not a block closure")
+                raise Undecided(f"lost anchor: closure after /{kv['closure']}/ in {kv['item']} is not a block closure with one named parameter")
             sig_start, b = cm.end(), hm.end()
             end = rscan.match_brace(src, mask, b) + 1
+            # `$x` in //@expect, //@sig and the contract stands for the closure's own parameter name
+            xname = hm.group(1)
+            blk["expect"] = [e.replace("$x", xname) for e in blk["expect"]]
+            blk["sig"] = blk["sig"].replace("$x", xname) if blk["sig"] else blk["sig"]
+            blk["contract"] = [c.replace("$x", xname) for c in blk["contract"]]
         real_sig = rscan.norm(src[sig_start:b])
         if blk["expect"] and real_sig not in [rscan.norm(e) for e in blk["expect"]]:
             raise Undecided(f"lost anchor: signature of {kv['item']} in {kv['file']} is `{real_sig}`, unit expects `{' | '.join(rscan.norm(e) for e in blk['expect'])}`")
@@ -322,6 +333,18 @@ def generate(unit):
             out.append(a)
         if kind == "fn" and src[b] == "{":
             body = src[b:end]
+            # `//@bind NAME regex`: group 1 of the regex in the real body (a local's name) is what `$NAME`
+            # stands for in the contract and loop-invariant lines, so that renaming the local is harmless
+            for bname, brx in blk.get("bind", []):
+                bm = re.search(brx, body)
+                if not bm:
+                    raise Undecided(f"lost anchor: //@bind {bname} /{brx}/ does not match in {kv['item']} of {kv['file']}")
+                bval = next(g for g in bm.groups() if g is not None)  # alternatives may use different groups
+                blk["contract"] = [c.replace("$" + bname, bval) for c in blk["contract"]]
+                blk["rules"] = [c.replace("$" + bname, bval) for c in blk["rules"]]
+                for k in blk["loop"]:
+                    blk["loop"][k] = [c.replace("$" + bname, bval) for c in blk["loop"][k]]
+                counts["X1.bind"] = counts.get("X1.bind", 0) + 1
             for r in blk["rules"]:
                 body = apply_rule(body, r, counts)
             if blk["sig"] and "Tracked(w)" in blk["sig"]:
@@ -683,7 +706,11 @@ def _exit_probe_line(body_lines):
     depth = 0
     pos = 0
     best = None
+    in_return = False
     for i, line in enumerate(body_lines):
+        code0 = "".join(ch for j, ch in enumerate(line) if mask[pos + j]).strip()
+        if depth == 1 and re.match(r"return\b", code0):
+            in_return = True  # a trailing `return x;` is the function's exit: probe BEFORE it
         for j, ch in enumerate(line):
             if mask[pos + j]:
                 if ch in "{([":
@@ -693,7 +720,10 @@ def _exit_probe_line(body_lines):
         code = "".join(ch for j, ch in enumerate(line) if mask[pos + j]).rstrip()
         # only `;` ends a statement for sure: a `}` at depth 1 may close the tail expression
         if depth == 1 and code and code.endswith(";"):
-            best = i
+            if in_return:
+                in_return = False
+            else:
+                best = i
         pos += len(line) + 1
     return best
 
